@@ -4,7 +4,7 @@ from ._lib import lib_run
 
 
 def run(tier, replay=None):
-    cells = cxx.QUICK_CELLS if tier == "quick" else cxx.FOUR_CELLS
+    cells = cxx.CODEC_CELLS if tier == "quick" else cxx.FOUR_CELLS
     depth = 2 if tier == "quick" else 3
     vs = []
     for cell in cells:
